@@ -440,7 +440,7 @@ func init() {
 	core.Register(&core.Prop{
 		ID:    "C02",
 		Level: "exploration",
-		Rule: "G2: every string of length <= 6 (quick) / <= 8 (thorough) over {< % > \\ = a \" # LF} in which the reference scanner finds no live tag opener must render to itself with only the escaping backslashes of \\<% removed (exhaustive; non-trivial = contains a backslash and a '<'). " +
+		Rule: "G2: every string of length <= 6 (quick) / <= 8 (thorough) over {< % > \\ = a \" # LF NUL} in which the reference scanner finds no live tag opener must render to itself with only the escaping backslashes of \\<% removed (exhaustive; non-trivial = contains a backslash and a '<'). " +
 			"G1: random segment lists Text|Out|Silent|Comment nested in if/else/for/fn/block-helper/contentFor bodies, text over a hostile alphabet encoded with the two escapes, output values ints and raw(string literal with arbitrary contents); expected output computed by the generator; non-trivial = at least two segment classes present (counted by template hash). Oracle: byte equality and err == nil.",
 		Assume:     []string{"string literals never end in a backslash before the closing quote (abstention)", "intended text never has a backslash directly before a literal <% (not denotable with the two escapes)"},
 		Batches:    batchesQT(32, 128),
